@@ -219,6 +219,26 @@ func newBackend(c *Config, s *Section) *Backend {
 				continue
 			}
 			b.Servers = append(b.Servers, sv)
+		case "server-template":
+			// server-template <prefix> <n> <fqdn>[:<port>] ...: n slots named <prefix>1..<prefix>n, filled by the resolver
+			if len(l.Tok) < 4 {
+				c.Errors = append(c.Errors, fmt.Sprintf("%s:%d: short server-template line", s.File, l.LineNo))
+				continue
+			}
+			n, err := strconv.Atoi(l.Tok[2])
+			if err != nil {
+				c.Errors = append(c.Errors, fmt.Sprintf("%s:%d: bad server-template size %q", s.File, l.LineNo, l.Tok[2]))
+				continue
+			}
+			for i := 1; i <= n; i++ {
+				tok := append([]string{"server", l.Tok[1] + strconv.Itoa(i), l.Tok[3]}, l.Tok[4:]...)
+				sv, err := parseServer(tok)
+				if err != nil {
+					c.Errors = append(c.Errors, fmt.Sprintf("%s:%d: %v", s.File, l.LineNo, err))
+					break
+				}
+				b.Servers = append(b.Servers, sv)
+			}
 		}
 	}
 	return b
